@@ -11,7 +11,28 @@ package credentials
 //@   pure
 //@   ensures c != nil && fresh(c) && c.cname == cname && c.realm == realm
 
+// Ghost record of the attributes handed to the credentials (C19: the application sees what the verified PAC encodes).
+//@ ghost adSetCount int
+//@ ghost adLogOn Time
+//@ ghost adLogOff Time
+//@ ghost adPwdLastSet Time
+//@ ghost adUserID int
+//@ ghost adPrimaryGroupID int
+//@ ghost adEffectiveName string
+//@ ghost adFullName string
+//@ ghost adLogonServer string
+//@ ghost adLogonDomainName string
 //@ func (*credentials.Credentials).SetADCredentials(c, a)
+//@   sets adSetCount := adSetCount + 1
+//@   sets adLogOn := a.LogOnTime
+//@   sets adLogOff := a.LogOffTime
+//@   sets adPwdLastSet := a.PasswordLastSet
+//@   sets adUserID := a.UserID
+//@   sets adPrimaryGroupID := a.PrimaryGroupID
+//@   sets adEffectiveName := a.EffectiveName
+//@   sets adFullName := a.FullName
+//@   sets adLogonServer := a.LogonServer
+//@   sets adLogonDomainName := a.LogonDomainName
 //@   modifies *c, entries(c.attributes), entries(c.groupMembership)
 //@   trusted_frame attribute maps are written through helper methods
 //@   ensures c.cname == old(c.cname) && c.realm == old(c.realm) && c.validUntil == old(c.validUntil) && c.authenticated == old(c.authenticated) && c.authTime == old(c.authTime)
